@@ -987,7 +987,9 @@ class C05(Prop):
             out.append(self.mk("big-natural-mmap." + m, unit, m, 0, bigops, rep=rep))
         for kind in ("file", "open", "pipe", "cmd"):
             out.append(dict(self.mk("openfail-" + kind, b"abc\n", "allfile", 4, ["openfail kind=" + kind, "getline"]), nomonitor=True))
-        out.append(dict(self.mk("known-stable-realloc", b"abcd", "stream", 2, ["setstable o=0", "getline"]), known_key=K_STABLE))
+        # known finding: the pointer handed out by `get` under the stable anchor is read again (`checkstable`) after the refill of `getline`
+        # has reallocated the window: heap-use-after-free under ASan as long as the defect is in the tree (reported only then)
+        out.append(dict(self.mk("known-stable-realloc", b"ab\ncd\nef\n", "stream", 2, ["setstable o=0", "get", "getline", "checkstable", "raise o=0"]), known_key=K_STABLE, nomonitor=True))
         # genuine (benign) defect: Read of 0 bytes on an empty slurped file = memcpy(p, NULL, 0) (UBSan); the generators avoid it (read k=0 on an empty input)
         out.append(dict(self.mk("known-read0-null-mem", b"", "allfile", 4, ["read k=0", "getoffset"]), known_key=K_READ0, nomonitor=True))
         # ---- outside the API contract: one scripted history per outcome of `Total` (exact model = implementation) ...
@@ -1194,9 +1196,6 @@ class C05(Prop):
             kf = None
             if "stale" in got:
                 return Failure("monitor", where + ": bytes behind a pointer handed out under a stable anchor changed")
-            if "moved" in got and case.get("known_key") == K_STABLE:
-                # known finding: reported on its witness only; generated histories go on being checked for everything else
-                kf = kf or Failure("monitor", where + ": window reallocated while a stable anchor is in force", key=K_STABLE)
             if got["st"] != exp["st"]:
                 return Failure("monitor", where + ": status %s, specification says %s" % (got["st"], exp["st"]))
             wanta = ("%d/%d" % (sp.anchor, sp.nanch)) if (streaming and sp.anchor is not None) else "-"
